@@ -106,7 +106,7 @@ def write(prop, tier, seed, reports, harness_errors, nondet, wall, n_viol, known
                     "catalogue model functions (generated python source, harness-owned)",
                     "log sink (logging.Handler owned by the simulator)",
                     "durable store (dict of pickled arrays kept by the driver across restarts)",
-                    "scheduler (baton passing over real threads, pre-emption at line events)",
+                    "scheduler (baton passing over real threads, pre-emption at line events; extra pre-emption right before/after statements that write to possibly shared memory, found by a syntactic scan of the code under test)",
                     "jax.jit wrapper (simulated per-object mutex, delegates to the real jax.jit)",
                     "jax.util stand-in (only because the installed jax has no jax.util)",
                     "scripted sampler replacing lcm.next_state.random_choice (scripted-draw runs only)",
